@@ -21,7 +21,23 @@ RULE = ('thorough: every byte string of length 0..3 over 0..255 (16,843,009 stri
 ASSUMPTIONS = ['generators/iterators are not passed: the statement quantifies over sequences',
                'bool items are not generated (whether they are "integers" is not stated)']
 
-CONT = {'list': list, 'tuple': tuple, 'bytes': bytes, 'bytearray': bytearray}
+import array
+
+
+def _arr(code):
+    def make(items):
+        return array.array(code, items)
+    return make
+
+
+def _mv16(items):
+    return memoryview(array.array('H', items)).cast('B').cast('H')
+
+
+CONT = {'list': list, 'tuple': tuple, 'bytes': bytes, 'bytearray': bytearray, 'array_B': _arr('B'), 'array_b': _arr('b'),
+        'array_h': _arr('h'), 'array_H': _arr('H'), 'array_i': _arr('i'), 'mv_H': _mv16}
+RANGE = {'bytes': (0, 255), 'bytearray': (0, 255), 'array_B': (0, 255), 'array_b': (-128, 127), 'array_h': (-32768, 32767),
+         'array_H': (0, 65535), 'array_i': (-2 ** 31, 2 ** 31 - 1), 'mv_H': (0, 65535)}
 
 
 def _unjson(x):
@@ -41,7 +57,9 @@ def check_seq(items, cont='list', via='from_bytes', text=None):
         if via == 'from_hex':
             r = mido.Message.from_hex(text)
         else:
-            arg = CONT[cont](items) if (cont in ('list', 'tuple') or in_byte) else list(items)
+            lo, hi = RANGE.get(cont, (None, None))
+            fits = cont in ('list', 'tuple') or (all_int and all(lo <= x <= hi for x in items))
+            arg = CONT[cont](items) if fits else list(items)
             r = mido.Message.from_bytes(arg)
     except ValueError as exc:
         if well:
@@ -195,7 +213,8 @@ def mutated(draw):
                 seq[pos] = v
             else:
                 seq.insert(pos, v)
-    cont = draw(st.sampled_from(['list', 'tuple', 'bytes', 'bytearray']))
+    cont = draw(st.sampled_from(['list', 'tuple', 'bytes', 'bytearray', 'array_B', 'array_b', 'array_h', 'array_H', 'array_i',
+                                 'mv_H']))
     return {'seq': seq, 'cont': cont}
 
 
@@ -292,3 +311,16 @@ def main(ctx):
                         seq.insert(pos, v)
                     for cont in ('list', 'tuple'):
                         ctx.check({'seq': seq, 'cont': cont}, classes=('illtyped-grid',), sample=False)
+    # integer sequences that are not lists of small ints: typed arrays and cast memoryviews (items are what counts, not
+    # the underlying memory)
+    for t in R.ALL_TYPES:
+        d = R.default_msg(t)
+        if t == 'sysex':
+            d['data'] = (1, 2, 3)
+        enc = R.ref_encode(d)
+        for cont in ('array_B', 'array_h', 'array_H', 'array_i', 'mv_H'):
+            ctx.check({'seq': enc, 'cont': cont}, classes=('typed-sequences',), sample=False)
+            ctx.check({'seq': enc[:-1], 'cont': cont}, classes=('typed-sequences',), sample=False)
+    for seq, cont in (([-112, 60, 64], 'array_b'), ([-8], 'array_b'), ([192], 'array_H'), ([192], 'mv_H'), ([63472], 'mv_H'),
+                      ([0x3C90, 0x40], 'array_H'), ([0x90, 0x3C, 0x140], 'array_h'), ([-1], 'array_i'), ([0xF8F8], 'array_H')):
+        ctx.check({'seq': seq, 'cont': cont}, classes=('typed-sequences',), sample=False)
